@@ -84,7 +84,15 @@ where
         .iter()
         .map(|e| {
             let mut e = e.clone();
+            let raw = e.span;
             e.span = f(e.span.0, e.span.1);
+            // documented re-basing of "end of input": the span handed to Input::map / Stream::map / IterInput::new.
+            // (Empty *matches* at the end may sit anywhere between the last token and that span — C07 — but a
+            // primitive that failed because the input ended reports the end-of-input span itself.)
+            let n = buf.n();
+            if I::GAPPED && n >= 1 && e.custom.is_none() && e.span == (n, n) && raw != (10 * n, 10 * n) {
+                bad.borrow_mut().get_or_insert(format!("an error raised at the end of the input has span {}..{}, not the end-of-input span {}..{} the input was given", raw.0, raw.1, 10 * n, 10 * n));
+            }
             for c in e.ctxs.iter_mut() {
                 c.1 = f(c.1 .0, c.1 .1);
             }
